@@ -698,6 +698,9 @@ class Repo:
         if d in ('None',):
             return EMPTY
         r = self.resolve(mod, d, scope)
+        if r is not None and r[0] in ('func', 'cattr') and scope is not None:
+            # a method/attribute of the enclosing class shadows the name: annotations mean the module-level class
+            r = self.resolve(mod, d, None)
         if r is None:
             return EMPTY
         if r[0] == 'cls':
